@@ -328,6 +328,15 @@ func vfC09Scenarios(thorough bool) []*vfGWScenario {
 		out = append(out, &vfGWScenario{Name: "px-full-mesh", Cfg: vfGWCfg{Router: "gossip", Peers: p5, Topics: []string{"t"}, Params: "d2", Scoring: true, PX: true, Prefix: pre, SeenTTL: 3600},
 			Alphabet: []string{"score:e:-0.5", "score:f:-0.5", "score:e:1", "graft:e:t", "graft:f:t", "prune:a:t", "hb"}, Msgs: msgs, Depth: d})
 	}
+	// the heartbeat's outbound quota: a mesh that is large enough (>= Dlo) but holds fewer than Dout peers the node
+	// dialled itself is topped up from the outbound non-members -- of which only those at or above zero qualify
+	{
+		po := []vfPeerCfg{{Name: "a", Proto: "v11", IP: "10.0.0.1"}, {Name: "c", Proto: "v12", IP: "10.0.0.3"},
+			{Name: "d", Proto: "v11", IP: "10.0.0.4", Outbound: true}, {Name: "e", Proto: "v12", IP: "10.0.0.5", Outbound: true}}
+		pre := []string{"conn:a", "conn:c", "sub:a:t", "sub:c:t", "join:t", "conn:d", "conn:e", "sub:d:t", "sub:e:t"}
+		out = append(out, &vfGWScenario{Name: "outbound-quota", Cfg: vfGWCfg{Router: "gossip", Peers: po, Topics: []string{"t"}, Params: "d4", Scoring: true, Prefix: pre, SeenTTL: 3600},
+			Alphabet: []string{"score:d:-0.5", "score:d:0", "score:e:-0.5", "unsub:e:t", "sub:e:t", "prune:a:t", "graft:d:t", "hb", "adv:4100"}, Msgs: msgs, Depth: d})
+	}
 	// validation-overload gater: m1 parks in the only validation slot, m2 is throttled (the gater's circuit
 	// breaker closes), m1 is then rejected (a's goodput drops): from here the gater consults its coin for a's RPCs
 	// (b is a direct peer with equally bad statistics: the gater must never get to judge it)
